@@ -153,12 +153,17 @@ def one_run(ctx, drv, rng):
         # directed: the peer is called every tick and suspends whatever is suspendable (multi-operator containers at an operator boundary),
         # on pool 0 as well as on the others
         multi, sus_prob, poll = True, 0.9, F(1, tps)
+    twins = (not heavy) and rng.random() < 0.3
     peer = Peer(rng, sus_prob, multi)
     srv = serve(peer)
     params = {"duration": rng.choice([20, 40]), "ticks_per_second": tps, "waiting_seconds_mean": rng.choice([0.5, 2.0, 6.0]),
               "num_pipelines": rng.randint(1, 3), "num_operators": 4 if heavy else rng.choice([2, 4]), "num_pools": rng.choice([1, 2, 3]), "cpus_per_pool": 8,
               "ram_gb_per_pool": rng.choice([64, 128, 256]), "multi_operator_containers": multi, "random_seed": rng.randint(0, 10 ** 6),
               "rest_scheduler_addr": f"127.0.0.1:{srv.server_port}", "rest_poll_interval": float(poll)}
+    if twins:
+        # directed: identical (query) pipelines arriving together on several pools finish in the same tick, i.e. between the same two calls
+        params.update({"query_prob": 1.0, "interactive_prob": 0.0, "batch_prob": 0.0, "num_pipelines": rng.randint(2, 3), "num_pools": rng.choice([2, 3]),
+                       "waiting_seconds_mean": rng.choice([2.0, 6.0])})
     # give the peer a handle on the real executor (created inside run_simulator)
     orig_init = Executor.__init__
 
@@ -248,6 +253,7 @@ def one_run(ctx, drv, rng):
     ctx.sit("containers_mixing_two_pipelines", getattr(peer, "mixed", 0))
     ctx.sit("assignments_issued_by_peer", sum(len(r["assignments"]) for _, r, _ in peer.calls))
     ctx.sit("pipelines_reported_complete", sum(1 for c in got for _, f in c["other"] if f))
+    ctx.sit("calls_reporting_several_completions", sum(1 for c in got if sum(1 for _, f in c["other"] if f) >= 2))
     ctx.coverage["distinct_nontrivial"] += 1 if stats.assignments > 0 else 0
     if len(ctx.coverage["samples"]) < 1:
         b = peer.calls[0][0]
@@ -258,7 +264,7 @@ def run(ctx):
     rng = random.Random(ctx.seed)
     drv = Driver()
     try:
-        for _ in range(12 if ctx.quick() else 120):
+        for _ in range(24 if ctx.quick() else 200):
             one_run(ctx, drv, rng)
     finally:
         drv.close()
